@@ -97,25 +97,32 @@ QIsInteger(x) == ~IsBad(x) /\ (x.n = 0 \/ (x.e >= 0 /\ x.e <= 8 /\ (10^x.e) % x.
 (*    whose magnitude is an entry of the library's unit table (treated as  *)
 (*    given, DESIGN 4.1): a value in deg is the TERM  number * tab:deg .   *)
 (***************************************************************************)
-UnitSyms == {"m", "cm", "km", "s", "ms", "g", "kg", "len", "rad", "mrad", "deg"}
-NoDim == <<0, 0, 0, 0>>
-AngleDim == <<0, 0, 0, 1>>
-UDim(u) == CASE u \in {"m", "cm", "km", "len"} -> <<1, 0, 0, 0>>
-             [] u \in {"s", "ms"} -> <<0, 1, 0, 0>>
-             [] u \in {"g", "kg"} -> <<0, 0, 1, 0>>
+UnitSyms == {"m", "cm", "km", "s", "ms", "g", "kg", "len", "rad", "mrad", "deg", "K", "Cel", "degF"}
+\* <<length, time, mass, angle, temperature>>
+NoDim == <<0, 0, 0, 0, 0>>
+AngleDim == <<0, 0, 0, 1, 0>>
+TempDim == <<0, 0, 0, 0, 1>>
+UDim(u) == CASE u \in {"m", "cm", "km", "len"} -> <<1, 0, 0, 0, 0>>
+             [] u \in {"s", "ms"} -> <<0, 1, 0, 0, 0>>
+             [] u \in {"g", "kg"} -> <<0, 0, 1, 0, 0>>
              [] u \in {"rad", "mrad", "deg"} -> AngleDim
+             [] u \in {"K", "Cel", "degF"} -> TempDim
              [] OTHER -> NoDim
 \* units whose magnitude is not an exact ratio: taken from the library's table by the harness
 TableUnits == {"deg"}
 \* magnitude of one unit in the coherent base <<m, s, g>>
 USc(u) == CASE u = "cm" -> Q(1, 1, -2) [] u = "km" -> Q(1, 1, 3) [] u = "ms" -> Q(1, 1, -3)
             [] u = "kg" -> Q(1, 1, 3) [] u = "len" -> Q(2, 1, 0) [] u = "mrad" -> Q(1, 1, -3)
+            [] u = "degF" -> Q(5, 9, 0)
             [] u \in TableUnits -> BAD [] OTHER -> QOne
+\* affine units: value in the coherent unit = (number + offset) * magnitude   (25 Cel = 298.15 K = 77 degF)
+UOff(u) == CASE u = "Cel" -> Q(27315, 1, -2) [] u = "degF" -> Q(45967, 1, -2) [] OTHER -> QZero
+AffineUnits == {"Cel", "degF"}
 UText(u) == IF u = "len" THEN "[len]" ELSE u
 CustomUnits == << [name |-> "len", n |-> 2, unit |-> "m"] >>
-DAdd(a, b) == <<a[1] + b[1], a[2] + b[2], a[3] + b[3], a[4] + b[4]>>
-DSub(a, b) == <<a[1] - b[1], a[2] - b[2], a[3] - b[3], a[4] - b[4]>>
-DScale(a, k) == <<a[1] * k, a[2] * k, a[3] * k, a[4] * k>>
+DAdd(a, b) == <<a[1] + b[1], a[2] + b[2], a[3] + b[3], a[4] + b[4], a[5] + b[5]>>
+DSub(a, b) == <<a[1] - b[1], a[2] - b[2], a[3] - b[3], a[4] - b[4], a[5] - b[5]>>
+DScale(a, k) == <<a[1] * k, a[2] * k, a[3] * k, a[4] * k, a[5] * k>>
 \* a requested unit: one symbol per dimension, raised to the exponents of dim
 ReqScale(us, dim) == QMul(QMul(QPowInt(USc(us[1]), dim[1]), QPowInt(USc(us[2]), dim[2])),
                           QMul(QPowInt(USc(us[3]), dim[3]), QPowInt(USc(us[4]), dim[4])))
@@ -141,6 +148,10 @@ AT(tok) ==
     [] tok = "k"    -> A("inode", "k", 4, 1, 0, 0, "kg", FALSE, FALSE)
     [] tok = "b"    -> A("inode", "b", 2, 1, 0, 0, "m", FALSE, FALSE)
     [] tok = "j"    -> A("inode", "j", 2, 1, 0, 0, "", FALSE, FALSE)
+    [] tok = "r"    -> A("fnode", "r", 25, 1, 0, 0, "Cel", FALSE, FALSE)
+    [] tok = "298.15K" -> A("lit", "", 29815, 1, -2, 0, "K", TRUE, FALSE)
+    [] tok = "77degF"  -> A("lit", "", 77, 1, 0, 0, "degF", FALSE, FALSE)
+    [] tok = "300K"    -> A("lit", "", 3, 1, 2, 0, "K", FALSE, FALSE)
     [] tok = "w"    -> A("fnode", "w", 3, 1, 1, 0, "deg", FALSE, FALSE)
     [] tok = "n"    -> A("inode", "n", 15, 1, 2, 0, "m", FALSE, FALSE)
     [] tok = "l"    -> A("inode", "l", 1, 1, 0, 0, "km", FALSE, FALSE)
@@ -175,18 +186,22 @@ AT(tok) ==
     [] tok = "!z"     -> A("def", "zz", 0, 1, 0, 0, "", FALSE, FALSE)
 NumKinds == {"fnode", "inode", "lit"}
 BoolKinds == {"bnode", "blit", "def"}
-AllAtomToks == {"w", "n", "l", "90deg", "45deg", "500mrad", "1.5km",
+AllAtomToks == {"r", "298.15K", "77degF", "300K", "w", "n", "l", "90deg", "45deg", "500mrad", "1.5km",
                 "a", "c", "t", "f", "g", "h", "e", "k", "b", "j", "150cm", "2", "-5cm", ".002km", "1.5len",
                 "8m", "300cm", "3m", "3m+5", "3m-9", "3m+10", "3m+12", ".003km-20", "4m", "200cm", "250cm",
                 "2.0m", "3", "3s", "true", "false", "d", "q", "!a", "!z"}
 IsNumTok(t) == t \in AllAtomToks /\ AT(t).kind \in NumKinds
 IsBoolTok(t) == t \in AllAtomToks /\ AT(t).kind \in BoolKinds
 \* nodes that exist in the environment text (the harness writes the DIP text from this list)
-NodeToks == {"a", "c", "t", "f", "g", "h", "k", "b", "j", "d", "q", "w", "n", "l"}
+NodeToks == {"a", "c", "t", "f", "g", "h", "k", "b", "j", "d", "q", "w", "n", "l", "r"}
+\* The value of an expression depends on the CURRENT value of the nodes it refers to, not on how they
+\* got it: every scenario holds unchanged in the environment in which each node is first defined with a
+\* decoy (number + 7, the other boolean) and then re-assigned its value.
+DecoyN(tok) == AT(tok).n + 7
 CustomNodeToks == {"e"}
 \* base magnitude of an atom in its own unit, and in the coherent base
 AMag(a) == Q(a.n, a.d, a.e)
-ABase(a) == QMul(AMag(a), USc(a.u))
+ABase(a) == QMul(QAdd(AMag(a), UOff(a.u)), USc(a.u))
 
 \* atom sets ("3 atoms / references" per expression family)
 NumCfg(i) == CASE i = 1 -> [atoms |-> {"a", "150cm", "2"}, env |-> "plain"]
@@ -207,7 +222,9 @@ LogCfg(i) == CASE i = 1 -> [atoms |-> {"a", "300cm", "3m+5", "d", "!z"}, env |->
                [] i = 8 -> [atoms |-> {"3m", "300cm", "4m", "c", "true"}, env |-> "plain"]
                \* two int nodes in different units whose converted value is not integral (1500 m = 1.5 km)
                [] i = 9 -> [atoms |-> {"n", "l", "b", "1.5km", "d"}, env |-> "plain"]
-NLogCfg == 9
+               \* affine units of one dimension: 25 Cel = 298.15 K = 77 degF
+               [] i = 10 -> [atoms |-> {"r", "298.15K", "77degF", "300K", "d"}, env |-> "plain"]
+NLogCfg == 10
 
 (***************************************************************************)
 (* 4. Numerical expressions - ideal                                        *)
@@ -304,7 +321,8 @@ Fn1Table == << [fn |-> "exp", text |-> "exp(", tags |-> {}, cls |-> "any"],
                [fn |-> "tan", text |-> "tan(", tags |-> {}, cls |-> "trig"] >>
 TTab(u) == [op |-> "tab:" \o u, n |-> 0, d |-> 1, e |-> 0, a |-> <<>>]
 VAtom(tok) == LET a == AT(tok) IN
-              IF a.u \in TableUnits THEN VT(TOp("mul", 0, <<TQ(AMag(a)), TTab(a.u)>>), UDim(a.u))
+              IF a.u \in AffineUnits THEN VSt("unspec")      \* arithmetic with affine units is not documented
+              ELSE IF a.u \in TableUnits THEN VT(TOp("mul", 0, <<TQ(AMag(a)), TTab(a.u)>>), UDim(a.u))
               ELSE VQ(ABase(a), UDim(a.u))
 
 \* evaluation of a Polish tree; fi = number of function occurrences met so far
@@ -570,7 +588,7 @@ BoolCmpType(op) == IF op = "==" THEN (IF BareEq THEN "py" ELSE "BT")
 NeedsConv(from, to) == from # "" /\ to # "" /\ from # to
 ConvFails(from, to) == NeedsConv(from, to) /\ UDim(from) # UDim(to)
 \* magnitude of atom x expressed in unit `to` (when no conversion happens the number is kept as it is)
-MagIn(x, to) == IF NeedsConv(x.u, to) THEN QDiv(ABase(x), USc(to)) ELSE AMag(x)
+MagIn(x, to) == IF NeedsConv(x.u, to) THEN QSub(QDiv(ABase(x), USc(to)), UOff(to)) ELSE AMag(x)
 \* int(<value>) of a literal for an int node: int('2.0') raises; after a conversion the float is truncated
 \* (only values whose truncation is exact stay comparable in the model)
 MCmpNum(op, x, y) ==
